@@ -62,11 +62,43 @@ pub fn run(ctx: &Ctx) -> Report {
     run_generated(&mut sec, ctx.seed ^ 8, ctx.cases(200_000, 3_000_000), ctx.workers, || c02::strategy(gen::ConfigMenu::all_transports(), 5), check, sig);
     rep.sections.push(sec);
     super::history_section(&mut rep, ctx, ctx.seed ^ 0x68, ctx.cases(100_000, 2_000_000), || c01::strategy(gen::ConfigMenu::all_transports(), 6), check, sig);
+    // a set_orientation that fails at its first low-level operation leaves the controller's address mode
+    // untouched; the windows of the drawing calls that follow must still fit the framebuffer as the
+    // controller sees it
+    let mut sec = Section::new(
+        &format!("after-failed-set_orientation[{}]", ctx.variant),
+        "as after-history, then a set_orientation to a generated orientation whose first pin / bus operation fails (nothing of it reaches the controller), then the judged in-bounds drawing calls; same framing invariant against the address mode the controller actually holds; non-trivial = >=1 group, non-default configuration and the failed call asked for another orientation",
+    );
+    run_generated(
+        &mut sec,
+        ctx.seed ^ 0x6f,
+        ctx.cases(100_000, 2_000_000),
+        ctx.workers,
+        || {
+            (gen::history(c01::strategy(gen::ConfigMenu::all_transports(), 4)), gen::orient())
+                .prop_map(|(mut c, o)| {
+                    c.hist.failed = Some(o);
+                    c
+                })
+                .boxed()
+        },
+        |c, info| {
+            let r = crate::exec::with_history(&c.hist, || check(&c.prog, info));
+            if c.hist.failed == Some(c.prog.cfg.orient) {
+                info.nontrivial = false;
+            } else if c.hist.failed.map(|o| o.vertical()) != Some(c.prog.cfg.orient.vertical()) {
+                info.label("failed-change:axes-exchanged");
+            }
+            r
+        },
+        |c, r| format!("failed-orient:{}", sig(&c.prog, r)),
+    );
+    rep.sections.push(sec);
     rep
 }
 
 pub fn replay(section: &str, case: &Value) -> Result<(), String> {
-    if section.starts_with("after-history") {
+    if section.starts_with("after-history") || section.starts_with("after-failed-set_orientation") {
         return super::replay_history(case, check);
     }
     check(&de::<ProgCase>(case)?, &mut CaseInfo::default())
